@@ -4621,6 +4621,10 @@ type FlowSpecNLRI struct {
 	Value []FlowSpecComponentInterface
 	rf    Family
 	rd    RouteDistinguisherInterface
+	// extLen records that the NLRI was received with the two-octet 0xfnnn
+	// length although it is shorter than 240 octets (RFC 8955 Section 4.1
+	// allows that), so that Len() is the number of octets it occupied.
+	extLen bool
 }
 
 func (n *FlowSpecNLRI) Flat() map[string]string {
@@ -4644,6 +4648,7 @@ func (n *FlowSpecNLRI) decodeFromBytes(data []byte, options ...*MarshallingOptio
 			return malformedAttrListErr("not all flowspec component bytes available")
 		}
 		length = int(binary.BigEndian.Uint16(data[:2]) & 0x0fff)
+		n.extLen = length < 0xf0
 		data = data[2:]
 	} else {
 		length = int(data[0])
@@ -4754,14 +4759,13 @@ func (n *FlowSpecNLRI) Serialize(options ...*MarshallingOption) ([]byte, error) 
 		}
 		buf = append(buf, b...)
 	}
-	length := n.Len(options...)
-	if length > 0xfff {
-		return nil, fmt.Errorf("too large: %d", length)
-	} else if length < 0xf0 {
-		length -= 1
+	// length of what follows the length octets
+	length := len(buf)
+	if length+2 > 0xfff {
+		return nil, fmt.Errorf("too large: %d", length+2)
+	} else if length < 0xf0 && !n.extLen {
 		buf = append([]byte{byte(length)}, buf...)
 	} else {
-		length -= 2
 		// RFC 8955 4.1: lengths of 240 and above are encoded as 0xfnnn
 		b := make([]byte, 2)
 		binary.BigEndian.PutUint16(b, 0xf000|uint16(length))
@@ -4778,7 +4782,7 @@ func (n *FlowSpecNLRI) Len(options ...*MarshallingOption) int {
 	for _, v := range n.Value {
 		l += v.Len(options...)
 	}
-	if l < 0xf0 {
+	if l < 0xf0 && !n.extLen {
 		return l + 1
 	} else {
 		return l + 2
